@@ -412,3 +412,28 @@ pub fn replay(_ctx: &mut Ctx, ext: &str, bytes: &[u8]) -> Result<Option<String>,
     };
     evaluate(&case).map(|_| None).map_err(|m| Fail::new(m, "osu", case.text().into_bytes()))
 }
+
+/// one record (any value class) for a section - used by the hostile document generator
+pub fn hostile_line(t: &mut Tape, sec: Sec) -> String {
+    let class = t.weighted(&[4, 3, 2, 2, 1, 2, 2, 2]);
+    match sec {
+        Sec::General => {
+            let k = *t.pick(GENERAL_KEYS);
+            kv_line(t, k, class)
+        }
+        Sec::Editor => {
+            let k = *t.pick(EDITOR_KEYS);
+            kv_line(t, k, class)
+        }
+        Sec::Metadata => {
+            let k = *t.pick(METADATA_KEYS);
+            kv_line(t, k, class)
+        }
+        Sec::Difficulty => {
+            let k = *t.pick(DIFFICULTY_KEYS);
+            kv_line(t, k, class)
+        }
+        Sec::Events => event_line(t),
+        Sec::Colours => colour_line(t),
+    }
+}
